@@ -20,15 +20,15 @@ CLAIMS = {
              "cut column-wise), the record layout between _parse_interventions and LGANM.sample, lossless (float) dtype "
              "of the working arrays, scalar => variance 0, range sampling slots, and equality of the population formulas "
              "with (I-W^T)^-1 mu and A diag(v) A^T over the reals (differing normal forms are refuted by exact rational evaluation), that "
-             "the whole weight matrix enters the computation, that no decision depends on weight values and nothing but own "
-             "allocations is written.",
+             "the whole weight matrix enters the computation, that no decision depends on weight values, nothing but own "
+             "allocations is written, and the result reads no attribute of the model other than W / means / variances / p (no caches).",
         note="Not decided: floating-point error of the inverse; numpy's uniform respecting its bounds (trusted API model). "
              "Trusted: Python semantics of the subset used, sverif/api.py.",
         technique="static analysis: predicate-abstraction case tables + symbolic value numbering with matrix normal form + dtype/slot dataflow over the AST"),
     "C02": dict(
         text=_T + "Decides the 8-row outcome table of ANM.sample (do / shift / noise / none and overlaps), that parent "
              "columns are selected by the boolean mask of column i of the stored matrix, that the loop runs over the "
-             "ordering computed once in the constructor from the same matrix, None -> null -> 0, the n x p result.",
+             "ordering computed once in the constructor from the same matrix, None -> null -> 0, the n x p result, no hidden model state.",
         note="Not decided: that topological_ordering returns a topological order (C03's undecided core); numpy broadcasting.",
         technique="static analysis: case tables by predicate abstraction over symbolic terms, dependence (REL) rules"),
     "C03": dict(
@@ -45,7 +45,8 @@ CLAIMS = {
     "C04": dict(
         text=_T + "Decides that the finite-sample path draws from the very distribution object returned in population "
              "mode, that (mean, cov, size=n) reach numpy's multivariate_normal in the right slots, that n and "
-             "random_state are forwarded, and that noise.normal hands a standard deviation (var**0.5).",
+             "random_state are forwarded, that noise.normal hands a standard deviation (var**0.5), and that neither sampler reads or writes "
+             "model state beyond its defining attributes.",
         note="Not decided: anything statistical (rates, i.i.d.); numpy's sampler is the trusted base.",
         technique="static analysis: slot/role dataflow over symbolic terms"),
     "C05": dict(
@@ -61,7 +62,7 @@ CLAIMS = {
         note="Not decided: monotonicity/invariance corollaries; the LGANM causal link (a theorem combining C01 and the normal equations).",
         technique="static analysis: matrix normal form, write-set and must-not-depend rules over symbolic terms"),
     "C07": dict(
-        text=_T + "Narrow: decides zero-pattern dependence of mec / is_consistent_extension, the DAG gates, that the "
+        text=_T + "Narrow: decides zero-pattern dependence of mec / is_consistent_extension, the DAG gates, canonical v-structure triples, that the "
              "membership predicate depends on all three defining conditions, that every element all_dags returns passed "
              "both filters and derives from a copy of the input with only undirected-edge entries cleared, that the loop "
              "runs over {True,False}^u with complementary masks and swapped columns for the two orientations, the dispatch "
@@ -70,7 +71,7 @@ CLAIMS = {
         note="Not decided: completeness/uniqueness of the 2^u enumeration; equality of the chain shortcut and the general path.",
         technique="static analysis: zero-pattern taint, must-depend (REL) and dominance rules over symbolic terms"),
     "C08": dict(
-        text=_T + "Narrow: decides zero-pattern dependence of dag_to_cpdag/order_edges, agreement of the label constants "
+        text=_T + "Narrow: decides zero-pattern dependence of dag_to_cpdag / order_edges / pdag_to_dag / pdag_to_cpdag, agreement of the label constants "
              "between labeller and assembler, that every labelled edge lands in the CPDAG (skeleton kept), that the "
              "extension search's ValueError propagates through pdag_to_cpdag, and the passes of order_edges / label_edges role by role "
              "(which edge is selected, column vs row of every lookup, what each branch writes, end of pass, and the compelled/reversible "
@@ -93,7 +94,8 @@ CLAIMS = {
         technique="static analysis: index-space typing and slot dataflow over symbolic terms, scalar normal form"),
     "C12": dict(
         text=_T + "Decides K iterations x one append, replace=False inside each intervention, inclusive upper size bound, "
-             "shrinking pool when replace=False, and that the three guards' predicates equal the stated ones (boundary exact).",
+             "shrinking pool when replace=False, that the three guards' predicates equal the stated ones (boundary exact), and that building "
+             "an error message cannot itself raise (% formatting of a possibly-tuple argument).",
         note="Not decided: 'over seeds every size and variable occurs' (statistical).",
         technique="static analysis: predicate normal forms, slot dataflow, loop-carried dependence"),
     "C13": dict(
@@ -135,7 +137,8 @@ CLAIMS = {
     "C19": dict(
         text=_T + "Decides writer/reader agreement of the (node, environment) forest slots and of sorted parent columns, "
              "one forest object per slot (allocated inside both loops), children generated from synthetic parent columns in topological order, one generator per seeded call with "
-             "the global stream reseeded before forest draws, and a guard per documented TypeError/ValueError clause.",
+             "the global stream reseeded before forest draws, a guard per documented TypeError/ValueError clause, and in drf.predict('sample') "
+             "that the drawn id, its population, its weights row and the training row read back agree.",
         note="Not decided: that the R forest's weights are meaningful (external). semi.py cannot be imported here (no R): static analysis needs neither.",
         technique="static analysis: RNG effect analysis, index agreement and guard rules over symbolic terms"),
     "C20": dict(
